@@ -10,7 +10,7 @@ def sh(cmd, cwd=None): return subprocess.run(cmd, shell=True, cwd=cwd, env=env, 
 wt = "/tmp/seedverify_" + name
 sh(f"git -C /repo worktree remove --force {wt}"); shutil.rmtree(wt, ignore_errors=True)
 r = sh(f"git -C /repo worktree add --detach {wt} HEAD"); assert r.returncode == 0, r.stderr
-out = {"name": name, "property": prop, "ran": []}
+out = {"name": name, "property": prop, "needs_to_manifest": os.environ.get("NEEDS", "see NOTES.md"), "origin": os.environ.get("ORIGIN", "fresh sub-agent given only the property text and a scratch worktree"), "ran": []}
 try:
     def demo(label):
         res = {}
